@@ -4,8 +4,9 @@
   `config/event.go` (`Hidi/Gen/Tables.lean`).
 -/
 import Hidi
+import HidiProofs.NotesLemmas
 namespace Hidi.Props.C11
-open Hidi
+open Hidi Hidi.NotesLemmas
 
 /-- every number 0–127 has a name, and the name parses back to the number -/
 theorem C11_roundtrip : ∀ n, n < 128 → stringToNote (noteName n) = .ok n := by
@@ -21,6 +22,51 @@ theorem C11_tables :
     Gen.pitchToValC = [(['A', '#'], 10), (['A'], 9), (['B'], 11), (['C', '#'], 1), (['C'], 0), (['D', '#'], 3),
       (['D'], 2), (['E'], 4), (['F', '#'], 6), (['F'], 5), (['G', '#'], 8), (['G'], 7)] := by
   constructor <;> decide
+
+/-- ASCII lower-casing, the inverse direction of `upperC` -/
+def lowerC (c : Char) : Char := if 'A' ≤ c ∧ c ≤ 'Z' then Char.ofNat (c.toNat + 32) else c
+
+theorem lowerC_toNat (c : Char) :
+    (lowerC c).toNat = if 65 ≤ c.toNat ∧ c.toNat ≤ 90 then c.toNat + 32 else c.toNat := by
+  unfold lowerC
+  simp only [char_le_iff, Char.reduceToNat]
+  split
+  · rw [toNat_ofNat_small]; omega
+  · rfl
+
+theorem upperC_lowerC (c : Char) : upperC (lowerC c) = upperC c := by
+  apply Char.toNat_inj.mp
+  rw [upperC_toNat (lowerC c), upperC_toNat c, lowerC_toNat c]
+  (repeat' split) <;> omega
+
+/-- parsing only depends on the upper-cased string -/
+theorem C11_upper (s : List Char) : stringToNote (s.map upperC) = stringToNote s :=
+  stringToNote_upper s
+
+/-- only the 128 names: whatever is accepted is (up to letter case) the canonical name of the number returned -/
+theorem C11_only_names (s : List Char) (n : Nat) :
+    stringToNote s = .ok n → n < 128 ∧ s.map upperC = noteName n := by
+  intro h
+  obtain ⟨P, hP, sharp, neg, D, hD, hs⟩ := accepted_shape s n h
+  have hc := check_candidates P hP sharp (by cases sharp <;> simp) neg (by cases neg <;> simp) D hD
+  rw [← C11_upper s, hs] at h
+  rw [hs]
+  exact check_sound _ n hc h
+
+/-- letter case does not matter -/
+theorem C11_case (s : List Char) : stringToNote (s.map lowerC) = stringToNote (s.map upperC) := by
+  rw [← C11_upper (s.map lowerC), List.map_map]
+  have : upperC ∘ lowerC = upperC := by funext c; exact upperC_lowerC c
+  rw [this]
+
+/-- everything that is not (up to case) one of the 128 names is rejected -/
+theorem C11_rejects (s : List Char) :
+    (∀ n, n < 128 → s.map upperC ≠ noteName n) → stringToNote s = .err := by
+  intro h
+  cases hs : stringToNote s with
+  | ok n => obtain ⟨hn, he⟩ := C11_only_names s n hs; exact absurd he (h n hn)
+  | err => rfl
+  | panic => exact absurd hs (stringToNote_ne_panic s)
 
 example : stringToNote "c#3".toList = .ok 61 := by decide
 example : stringToNote "H3".toList = .err := by decide
